@@ -130,6 +130,18 @@ def make_state(rng, seq, rig, u):
         nn = b[off] | (b[off + 1] << 8)
         for d in (0, 1):
             patches.setdefault((nn + d) & 0xFFFF, rng.randrange(256))
+    if b[0] == 0xED and b[1] in (0xA1, 0xA9, 0xB1, 0xB9, 0xA0, 0xA8, 0xB0, 0xB8, 0xA2, 0xAA, 0xB2, 0xBA, 0xA3, 0xAB, 0xB3, 0xBB):
+        # block instructions: the repeat decision (BC or B reaching zero, a compare that matches) selects the tail of the
+        # cycle pattern, so the deciding values are aimed at: BC = 1/2/0, B = 1/2, (HL) == A for the compares
+        k = rng.random()
+        if k < 0.5:
+            bc = rng.choice([1, 2, 0, 0x0100, 0x0101])
+            if b[1] & 0x02:
+                regs[2] = rng.choice([1, 2, 0])          # IN/OUT blocks count in B; C stays (the port)
+            else:
+                regs[2], regs[3] = bc >> 8, bc & 0xFF
+        if b[1] in (0xA1, 0xA9, 0xB1, 0xB9) and rng.random() < 0.5:
+            patches[(regs[6] * 256 + regs[7]) & 0xFFFF] = regs[0]          # the compare finds A at (HL)
     for i, x in enumerate(b):
         patches[(addr + i) & 0xFFFF] = x
     return addr, b, regs, patches
